@@ -7,7 +7,7 @@ from typing import Dict, List, Optional, Tuple
 
 from sa.canon import canon, same
 from sa.index import AnalysisError
-from sa.peval import Unknown, compile_term
+from sa.peval import PURE_FUNCS, Unknown, compile_term, peval
 from sa.report import Ctx
 from sa.sym import FALSE, NONE, Summary, bind_args, conjuncts, show, subst, walk
 
@@ -33,6 +33,7 @@ ASSUMPTIONS = [
 
 TIME_TYPES = {"TimeStamp", "TimeInterval"}
 BUFFER_TYPES = {"TimeStamp", "Point", "MultiPoint", "LineString", "MultiLineString"}
+ALL_TYPES = ("TimeStamp", "TimeInterval", "BoundingBox", "Point", "LineString", "Polygon", "MultiPoint", "MultiLineString", "MultiPolygon")
 
 
 class C06:
@@ -63,7 +64,12 @@ class C06:
         ctx = self.ctx
         for name, want, why in (("TIME_GEOMETRY_TYPES", TIME_TYPES, "the types without frequency extent"),
                                 ("BUFFER_GEOMETRY_TYPES", BUFFER_TYPES, "the types of topological dimension < 2 (no area unless buffered)")):
-            got = self.type_set(name)
+            try:
+                got = self.type_set(name)
+            except AnalysisError:
+                if name.startswith("BUFFER"):
+                    continue  # the table is gone: the per-type evaluation of _prepare_geometry below decides which types are buffered
+                raise
             m, node = ctx.index.need_assign(AFF, name)
             if got is None:
                 ctx.undec("R06.2", f"{self.file}:{node.lineno} {name}", "not a literal set of geometry types")
@@ -161,27 +167,63 @@ class C06:
         self.fast_leaves = (P1, P2)
         self.check_iou("compute_affinity", s, arets, inter, union, clamp_required=True)
         self.fast_leaves = None
-        # _prepare_geometry itself
+        # _prepare_geometry itself, evaluated once per geometry type (whatever tables / tests select the types)
         g = ("param", ps.params[0])
-        BUF = ("global", f"{AFF}:BUFFER_GEOMETRY_TYPES", "assign")
-        cond = ("cmp", "in", ("attr", g, "type"), BUF)
+        tag = ("attr", g, "type")
         bsym = ("global", f"{OPS}:buffer_geometry", "func")
-        ok = False
         bs = ctx.summ.of_func(OPS, "buffer_geometry")
-        for r in ps.returns:
-            if r.term[0] == "call" and r.term[1] == bsym:
-                bound, extra, _, _ = bind_args(r.term, bs.params)
-                ok = (canon(r.live) == canon(cond) and bound.get(bs.params[0]) == g and bound.get("time_buffer") == ("param", "time_buffer")
-                      and bound.get("freq_buffer") == ("param", "freq_buffer"))
-        ident = [r for r in ps.returns if r.term == g]
         psite = f"{self.file}:{ps.node.lineno} _prepare_geometry"
-        if ok and ident and canon(ident[0].live) == canon(("not", cond)) or (ok and ident and canon(ident[0].live) == canon(("cmp", "notin", ("attr", g, "type"), BUF))):
-            ctx.ok("R06.3", psite, "buffers exactly the BUFFER_GEOMETRY_TYPES, forwards (time_buffer, freq_buffer) uncrossed, otherwise identity")
-        else:
+        genv = {}
+        for r in ps.raw_returns:
+            for x in list(walk(r.live)) + list(walk(r.term)):
+                if x[0] == "global" and x[2] == "assign" and x not in genv and x[1].startswith(AFF + ":"):
+                    try:
+                        ts_ = self.type_set(x[1].split(":")[1])
+                    except AnalysisError:
+                        ts_ = None
+                    if ts_ is not None:
+                        genv[x] = frozenset(ts_)
+        buffered, same, odd = set(), set(), []
+        for T in ALL_TYPES:
+            env = dict(genv)
+            env[tag] = T
+            outs = []
+            for r in ps.raw_returns:
+                lv = peval(r.live, env)
+                if lv[0] == "const" and not lv[1]:
+                    continue
+                outs.append((lv, peval(r.term, env), r))
+            if len(outs) != 1 or not (outs[0][0][0] == "const" and outs[0][0][1]):
+                odd.append((T, "outcome not decided by the type alone"))
+                continue
+            val = outs[0][1]
+            if val == g:
+                same.add(T)
+            elif val[0] == "call" and val[1] == bsym:
+                bound, extra, _, _ = bind_args(val, bs.params)
+                if bound.get(bs.params[0]) == g and bound.get("time_buffer") == ("param", "time_buffer") and bound.get("freq_buffer") == ("param", "freq_buffer") and not extra:
+                    buffered.add(T)
+                else:
+                    odd.append((T, f"buffered with {show(val)[:70]}"))
+            else:
+                odd.append((T, f"returns {show(val)[:60]}"))
+        if odd and all(w == "outcome not decided by the type alone" for _, w in odd):
+            ctx.undec("R06.3", psite, f"result for {[t for t, _ in odd]} is not decided by the geometry type alone")
+        elif odd:
             ctx.bad("R06.3", self.file, "_prepare_geometry", "buffer_geometry(geometry, time_buffer=time_buffer, freq_buffer=freq_buffer)",
-                    f"_prepare_geometry must return buffer_geometry(geometry, time_buffer, freq_buffer) iff geometry.type is a "
-                    f"buffer type and the geometry itself otherwise: {[(show(r.live)[:40], show(r.term)[:70]) for r in ps.returns]}",
+                    f"_prepare_geometry must return buffer_geometry(geometry, time_buffer, freq_buffer) or the geometry itself: {odd[:3]}",
                     ps.node.lineno)
+        else:
+            ctx.ok("R06.3", psite, "every type: buffer_geometry(geometry, time_buffer, freq_buffer) uncrossed, or the geometry itself")
+            if buffered == BUFFER_TYPES:
+                ctx.ok("R06.2", psite, f"the buffered types are exactly {sorted(BUFFER_TYPES)} (evaluated per type)")
+            else:
+                ctx.bad("R06.2", self.file, "_prepare_geometry", f"buffered types = {sorted(buffered)}",
+                        f"_prepare_geometry buffers {sorted(buffered)} but must buffer exactly the types of topological dimension < 2 "
+                        f"({sorted(BUFFER_TYPES)}): missing {sorted(BUFFER_TYPES - buffered)}, extra {sorted(buffered - BUFFER_TYPES)}"
+                        + ("; an unbuffered zero-area geometry gives affinity 0 with everything, including itself" if BUFFER_TYPES - buffered else "")
+                        + ("; buffering a geometry that already has an extent changes its affinities" if buffered - BUFFER_TYPES else ""),
+                        ps.node.lineno)
         # time branch function
         ts = ctx.summ.of_func(AFF, "compute_affinity_in_time")
         a, b = ("param", ts.params[0]), ("param", ts.params[1])
@@ -264,8 +306,124 @@ class C06:
         ctx.ok("R06.4", f"{self.file}:{paths[0][2].lineno} {fname}", f"closed-form bounding-box path equals the IoU on {n} box pairs")
         return True
 
+    def iou_by_evaluation(self, fname, s: Summary, rets, inter, union, clamp_required: bool) -> bool:
+        """Decide R06.4 / R06.5 by evaluating the return paths as functions of (intersection I, union U) on a grid, whatever
+        the spelling of the guard (`U == 0`, `not U`, `U <= 0`) and of the clamp (min, conditional, clip).  False = the
+        paths are not functions of I and U alone (the syntactic rule below decides)."""
+        ctx = self.ctx
+        ci, cu = canon(inter), canon(union)
+        I, U = ("param", "__I__"), ("param", "__U__")
+
+        def abstract(t):
+            if not isinstance(t, tuple) or not t:
+                return t
+            if isinstance(t[0], str) and t[0] in ("bin", "attr", "call", "sub", "neg"):
+                try:
+                    c = canon(t)
+                except Exception:  # noqa: BLE001
+                    c = None
+                if c == cu:
+                    return U
+                if c == ci:
+                    return I
+            return tuple(abstract(x) if isinstance(x, tuple) else x for x in t)
+
+        paths = []
+        for r in rets:
+            lv, tm = abstract(r.live), abstract(r.term)
+            paths.append((lv, tm, r))
+        # conditions shared by all paths that do not mention I / U (the branch selection) are dropped
+        def mentions(t):
+            return any(x in (I, U) for x in walk(t))
+        stripped = []
+        for lv, tm, r in paths:
+            cj = [c for c in conjuncts(lv) if mentions(c)]
+            if any(x[0] in ("call", "attr", "sub", "global", "elem") and not mentions(x) and x[0] != "call" for x in walk(tm) if isinstance(x, tuple)) and not mentions(tm) and tm[0] != "const":
+                return False
+            stripped.append((cj, tm, r))
+        funcs = dict(PURE_FUNCS)
+        funcs[("ext", "numpy.clip")] = lambda x, lo, hi: min(max(x, lo), hi)
+        funcs[("ext", "numpy.minimum")] = min
+        site = f"{self.file}:{s.node.lineno} {fname}"
+        grid = [(0.0, 0.0)]
+        for u in (1.0, 3.0, 0.3):
+            grid += [(0.0, u), (u / 4, u), (u, u), (u * (1 + 2 ** -40), u)]
+        verdict = {"guard": None, "quot": None, "clamp": None}
+        for iv, uv in grid:
+            env = {I: iv, U: uv}
+            live_paths = []
+            for cj, tm, r in stripped:
+                alive = True
+                for c in cj:  # in path order: a false earlier test means the later ones are never evaluated
+                    v = peval(c, env, funcs)
+                    if v[0] != "const":
+                        return False
+                    if not v[1]:
+                        alive = False
+                        break
+                if alive:
+                    live_paths.append((tm, r))
+            if len(live_paths) != 1:
+                return False
+            tm, r = live_paths[0]
+            v = peval(tm, env, funcs)
+            if uv == 0.0:
+                if v[0] != "const":
+                    if any(x[0] == "bin" and x[1] in ("/", "//") for x in walk(v) if isinstance(x, tuple)):
+                        verdict["guard"] = verdict["guard"] or ("divides", r)
+                        continue
+                    return False
+                if v[1] != 0:
+                    verdict["guard"] = verdict["guard"] or ("value", r, v[1])
+                continue
+            if v[0] != "const" or isinstance(v[1], bool) or not isinstance(v[1], (int, float)):
+                return False
+            want = iv / uv
+            if iv > uv:
+                if clamp_required and v[1] > 1.0:
+                    verdict["clamp"] = verdict["clamp"] or (r, v[1])
+                elif v[1] not in (want, 1.0):
+                    verdict["quot"] = verdict["quot"] or (r, iv, uv, v[1])
+                continue
+            if v[1] != want:
+                verdict["quot"] = verdict["quot"] or (r, iv, uv, v[1])
+        r0 = stripped[-1][2]
+        if verdict["guard"] is None:
+            ctx.ok("R06.4", site, "union 0 -> returns 0 without dividing (evaluated on the (intersection, union) grid)")
+        else:
+            ctx.bad("R06.4", self.file, fname, "if union == 0: return 0",
+                    f"{fname} has no zero-union guard: two zero-extent geometries divide by zero"
+                    if verdict["guard"][0] == "divides" else f"{fname} returns {verdict['guard'][2]} instead of 0 when the union is 0", s.node.lineno)
+        if verdict["quot"] is None:
+            ctx.ok("R06.4", f"{self.file}:{r0.lineno} {fname}", f"returns intersection / (extent1 + extent2 - intersection) on all {len(grid)} grid points")
+        else:
+            r, iv, uv, got = verdict["quot"]
+            ctx.bad("R06.4", self.file, fname, f"return {show(r.term)[:100]}",
+                    f"{fname} does not return intersection / (extent1 + extent2 - intersection): for intersection={iv}, union={uv} "
+                    f"it returns {got} instead of {iv / uv}", r.lineno, witness={"intersection": iv, "union": uv, "returned": got})
+            return True
+        if clamp_required:
+            if verdict["clamp"] is None:
+                ctx.ok("R06.5", f"{self.file}:{r0.lineno} {fname}", "area quotient clamped to <= 1 (intersection slightly above union -> 1.0)")
+            else:
+                r, got = verdict["clamp"]
+                ctx.bad("R06.5", self.file, fname, "return intersection / union (unclamped area quotient)",
+                        "the quotient of separately computed shapely areas is returned unclamped: for a geometry compared with "
+                        "itself intersection.area can exceed area1 + area2 - intersection.area by rounding, so the affinity "
+                        "exceeds 1 (e.g. a buffered LineString with itself: 1.000000000000067) and Match(affinity=...) rejects it",
+                        r.lineno, witness={"geometry": "LineString [[3.1869, 17566.9], [5.8090, 31877.99]] with itself",
+                                           "observed": 1.000000000000067})
+        else:
+            ctx.ok("R06.5", f"{self.file}:{r0.lineno} {fname}", "time quotient: one subtraction chain over the same four floats (no clamp needed)")
+        return True
+
     def check_iou(self, fname, s: Summary, rets, inter, union, clamp_required: bool):
         ctx = self.ctx
+        try:
+            if self.iou_by_evaluation(fname, s, rets, inter, union, clamp_required):
+                return
+        except RecursionError:
+            pass
         site = f"{self.file}:{s.node.lineno} {fname}"
         ci, cu = canon(inter), canon(union)
         zero_guard = canon(("cmp", "eq", union, ("const", 0)))
@@ -349,3 +507,14 @@ def run(ctx: Ctx):
     with ctx.delegated("C11/"):
         c11.run_affinity_subset(ctx)
     return EXPLANATION, ASSUMPTIONS
+
+
+def run_for_detection(ctx: Ctx):
+    """The clauses C08 rests on: affinity is the IoU of the two prepared geometries (positive only when they overlap)."""
+    ctx.rule("R06.2", "type sets exact; time branch iff either geometry is time-only", 3)
+    ctx.rule("R06.3", "both geometries prepared with the caller's buffers, exactly the buffer types buffered", 3)
+    ctx.rule("R06.4", "canonical IoU with zero-union guard in both branches", 4)
+    ctx.rule("R06.5", "returned value cannot exceed 1 (area quotient clamped)", 2)
+    c = C06(ctx)
+    c.check_sets()
+    c.check_body()
